@@ -41,7 +41,7 @@ class C17(Prop):
             "that distinct orders collapse to one ballot in a large share of cases; each of the three parameters; "
             "zero/two parameters for the ValueError guards; raw ballot lists with repetitions for factorise_instance; "
             "non-trivial = at least two source orders (resp. a repeated ballot)")
-    budget = {"quick": 400, "thorough": 4000}
+    budget = {"quick": 400, "thorough": 40000}
     anchors = [("preflibtools.instances.preflibinstance.categorical", "CategoricalInstance." + n) for n in
                ("from_ordinal", "factorise_instance", "recompute_cardinality_param")]
 
